@@ -3,6 +3,7 @@ that faults under a symbolic flag.  Symbolic: which initializers lack a const_va
 shape, whether the save faults, verbose (tqdm present/absent by stub)."""
 from __future__ import annotations
 
+import os
 from typing import List
 
 import numpy as np
@@ -20,6 +21,29 @@ class Boom(OSError):
 TENS = [ir.tensor(np.zeros(1, np.float32), name=f"w{i}") for i in range(3)]
 PATHS = ["m.onnx", "d/m.onnx", "/abs/m", "a.b/c.d", "./m", "x/../y.onnx", "dir.onnx/model", "m.onnx.data"]
 BASES = ["m.onnx", "m.onnx", "m", "c.d", "m", "y.onnx", "model", "m.onnx.data"]
+
+
+def _sibling(ed, base) -> bool:
+    if not isinstance(ed, (str, os.PathLike)):
+        return False
+    ed = os.fspath(ed)
+    return ed != "" and "/" not in ed and os.sep not in ed and ed not in (".", "..") and ed != base
+
+
+LAST_CALLS = None
+
+
+def protocol_probe():
+    """Concrete run used by the driver: does the function still delegate to ONE ir.save(model, path, external_data=...) call?
+    If not, the stubbed group cannot represent it and only the real-save group (c20_real) decides."""
+    try:
+        ok = save_prop([True], 0, False, False, False, [False])
+    except Exception as e:  # noqa: BLE001
+        return False, f"{type(e).__name__}: {e}"
+    n = len(LAST_CALLS or [])
+    if n != 1 or LAST_CALLS[0][2] is None:
+        return False, f"{n} ir.save call(s), external_data={[c[2] for c in LAST_CALLS or []]}"
+    return True, f"one ir.save call, external_data={LAST_CALLS[0][2]!r}; property on the probe instance: {ok}"
 
 
 def save_prop(has_value: List[bool], pi: int, verbose: bool, tqdm_present: bool, fault: bool, is_input: List[bool] = ()) -> bool:
@@ -76,14 +100,15 @@ def save_prop(has_value: List[bool], pi: int, verbose: bool, tqdm_present: bool,
         import sys
         if isinstance(sys.modules.get("tqdm"), _types.SimpleNamespace):
             del sys.modules["tqdm"]
+    global LAST_CALLS
+    LAST_CALLS = calls
     after = [(k, v, v.const_value) for k, v in g.initializers.items()]
     same = len(before) == len(after) and all(a[0] == b[0] and a[1] is b[1] and a[2] is b[2] for a, b in zip(before, after))
     if not all(has_value):
         return outcome == "refused" and calls == [] and same
-    ok_call = (
-        len(calls) == 1 and calls[0][0] is model and calls[0][1] == path and calls[0][2] == BASES[pi] + ".data"
-        and calls[0][3] == (verbose and tqdm_present) and calls[0][4] == []
-    )
+    # the contract with onnx_ir.save that this group relies on: ONE call, for this model and path, naming a sibling data
+    # file (a bare file name, not the model file itself).  Which name, callback or extra keyword is used is not part of C20.
+    ok_call = len(calls) == 1 and calls[0][0] is model and os.fspath(calls[0][1]) == path and _sibling(calls[0][2], BASES[pi])
     return same and ok_call and outcome == ("io" if fault else "ok")
 
 
